@@ -1,7 +1,7 @@
 #!/bin/bash
 # run every change under mutants/ through all quick checks (seed from $1, default 1) and write mutants/RESULTS.md
 SEED=${1:-1}
-cd /verif
+cd "$(dirname "$0")/.."
 OUT=mutants/RESULTS.md
 echo "| change | target | reported by (quick tier, seed $SEED) |" > $OUT.tmp
 echo "|---|---|---|" >> $OUT.tmp
